@@ -53,14 +53,14 @@ CLAIMS = {
         "technique": "cross-language constant agreement; MIR reachability (no write before last fallible point); symbolic case evaluation with explore()",
     },
     "C08": {
-        "text": "Claimed for the table clauses only: get_imm's seven arms evaluated per weekday of the 1st (day = 15 + ((2 - wd) mod 7)); get_roll's five "
+        "text": "get_imm's seven arms evaluated per weekday of the 1st (day = 15 + ((2 - wd) mod 7)); get_roll's five "
                 "arms (Int, EoM -> 31 capped, SoM -> 1, IMM, Unspecified -> Err); add_months rewrites Unspecified to the start date's own day and feeds "
                 "get_roll then roll with its own modifier/settlement; get_roll_by_day's three paths (valid / retry day-1 while day>28 / abort); "
-                "get_eom's downward search from 31; is_leap_year = Feb 29 exists; is_imm/is_eom. The year/month carry arithmetic of add_months is "
-                "explicitly NOT decided.",
-        "design_ref": "DESIGN.md §4 C08",
-        "note": "Not decided: add_months carry arithmetic (an arithmetic identity over all (month, offset) pairs; evaluating it would be executing it); "
-                "Gregorian validity (chrono). Trusted: chrono::NaiveDate::from_ymd_opt.",
+                "get_eom's downward search from 31; is_leap_year = Feb 29 exists; is_imm/is_eom. R08.5 decides the year/month carry of add_months by "
+                "value-set analysis of its path formulas: Q = trunc(months/12) stays symbolic, t = month + remainder ranges over -10..23, each path's "
+                "feasible t-set is computed from its branch conditions and on it 12*carry + month' = t with month' in 1..12; the sets partition the range.",
+        "design_ref": "DESIGN.md §4 C08, §10.3",
+        "note": "Assumed: chrono's month() in 1..=12, |months| < 2^31. Not decided: Gregorian validity (chrono). Trusted: chrono::NaiveDate::from_ymd_opt.",
         "technique": "exhaustive case evaluation of match tables and loop summaries over typed HIR",
     },
     "C06": {
